@@ -107,6 +107,25 @@ def gen_cases(rng, tier):
     per = 60 if tier == "quick" else 150
     from saml2.config import PREFERRED_BINDING  # the code's current table, read on every run
 
+    # A NAMED entity that is not an identity provider in the metadata (unknown, or known only as a service provider), beside
+    # one or two real IdPs that have an endpoint for every binding asked for: nothing may be chosen (in particular not the
+    # "only IdP there is" default that applies when no entity is named).
+    for n_idp in (1, 2):
+        idps = []
+        for k in range(n_idp):
+            e = gen_idp_entity(rng, k)
+            e["idpsso"]["sso"] = [(b, "https://idp%d.c08.example/sso/%d" % (k, i))
+                                  for i, b in enumerate([S.BINDING_POST, S.BINDING_REDIRECT, S.BINDING_ARTIFACT])]
+            idps.append(e)
+        sp_only = gen_sp_entity(rng, 7)
+        for mdl in (idps, idps + [sp_only]):
+            for ent in ["https://unknown.c08.example/idp"] + ([sp_only["entity_id"]] if mdl is not idps else []):
+                for b in (S.BINDING_POST, S.BINDING_REDIRECT, S.BINDING_ARTIFACT):
+                    for via in ("_sso_location", "prepare_for_authenticate"):
+                        yield {"op": "sso", "md": {"idps": mdl}, "entity": ent, "eps": None, "binding": b, "via": via}
+                for b in (None, S.BINDING_POST, S.BINDING_REDIRECT):
+                    yield {"op": "negotiate", "md": {"idps": mdl}, "entity": ent, "eps": None, "binding": b,
+                           "to_try": [b] if b else [S.BINDING_REDIRECT, S.BINDING_POST]}
     for m in range(n_md):
         pref_cfg = None
         if rng.random() < 0.5:
